@@ -326,11 +326,17 @@ pub fn run(ctx: &mut Ctx) {
     let fx = fixtures::all();
     let hex = |b: &[u8]| b.iter().map(|x| format!("{x:02x}")).collect::<String>();
 
+    // Sanitizer lanes (ASan build, Miri) run the same workload without the deep-nesting block:
+    // stack exhaustion is the release lane's subject, and with a smaller case count.
+    let lane = std::env::var("WACVERIF_LANE").ok();
+    if let Some(l) = &lane {
+        ctx.note("lane", json!(l));
+    }
     // D: deep nesting at fixed depths (deterministic; run first so a crash is attributed cleanly)
-    let depths = [10usize, 100, 1_000, 5_000, 20_000, 100_000];
+    let depths: &[usize] = if lane.is_some() { &[] } else { &[10usize, 100, 1_000, 5_000, 20_000, 100_000] };
     let mut dcase = crate::witness::WITNESS_BASE;
     for kind in 0..8usize {
-        for d in depths {
+        for d in depths.iter().copied() {
             dcase += 1;
             if !ctx.mine(dcase) {
                 continue;
@@ -403,7 +409,11 @@ pub fn run(ctx: &mut Ctx) {
         }
     }
 
-    let total = ctx.n(2_500, 400_000);
+    let total = match lane.as_deref() {
+        Some("miri") => std::env::var("WACVERIF_LANE_CASES").ok().and_then(|v| v.parse().ok()).unwrap_or(16),
+        Some(_) => std::env::var("WACVERIF_LANE_CASES").ok().and_then(|v| v.parse().ok()).unwrap_or(20_000),
+        None => ctx.n(2_500, 400_000),
+    };
     for case in ctx.cases(total) {
         if ctx.out_of_budget() {
             ctx.count("budget-stop");
